@@ -40,4 +40,19 @@ TABLE = {
         "note": _NOTE + " Python's MRO attribute lookup is trusted; results for arbitrary subclass trees follow from it given R1-R6.",
         "technique": "who-may-write / delete-vs-store discipline on override cells, must-pass-through and validate-before-store on the CFG, sibling agreement",
     },
+    "C07": {
+        "text": "Crash points are covered by path rules, not enumerated: every HIDE_CURSOR write is inside a try whose finally shows the cursor under an implied "
+                "condition; every render-output write in a draw path is inside a try whose handlers certainly catch the required interruption classes and call the "
+                "style's interrupted-draw hook on all handler paths; graphics styles' hooks emit ST*2 (+ end-of-chunk) flushed; frame position, dynamic size, "
+                "iterator and render data are restored/closed in finally blocks covering every frame render; animations swallow Ctrl-C, still draws re-raise.",
+        "note": _NOTE + " Clean-up code is treated as atomic (the property stops at 'before its own clean-up starts'). Partial-write byte cuts and terminals' recovery after ST are device behaviour, not decided.",
+        "technique": "pairing / lexical protection by try-finally, handler-class coverage (must-catch sets), must-call on the handler CFG, class-hierarchy exhaustiveness",
+    },
+    "C10": {
+        "text": "Must-finalize with ownership on a CFG with exceptional edges (single-fault leak-point analysis): for every statement at which a fault can occur "
+                "after render data was created, the data is finalized or was handed over before the function is left; once-flag shape of finalize()/close(); "
+                "iterator handlers close before raising; caller-owned data follows the finalize parameter; no generator step after finalization.",
+        "note": _NOTE + " 'Exactly once' as a count over histories is reduced to once-flag + must-finalize; garbage-collection timing is not modelled. One recorded known finding (K4c).",
+        "technique": "typestate / must-release dataflow on a statement CFG with exceptional edges, flag-specialised on the ownership parameter; dominance checks",
+    },
 }
